@@ -178,6 +178,36 @@ def run(ctx):
                 if out[:2] != ('val', want_txt):
                     ctx.violation("oracle", f"`{src}` over the set / map keys {[proto.show(z) for z in items]} gives {out[:2]}, the ascending enumeration is {want_txt}",
                                   {"op": "enum-program", "src": src, "items": [proto.to_sx(x) for x in items]})
+    # ---- the enumeration follows the order after EVERY kind of change to the same set / map, through every pair of enumeration forms
+    # (enumerate - change - enumerate again): a key added by put / index assignment / compound assignment, a key removed, at the front,
+    # in the middle and at the end of the order
+    def lst(xs):
+        return "[" + ", ".join(repr(x) if isinstance(x, str) else str(x) for x in xs) + "]"
+    for keys0, news in ((["b", "d"], ["a", "c", "e"]), ([20, 40], [10, 30, 50])):
+        lit = lambda k: repr(k) if isinstance(k, str) else str(k)   # noqa
+        m_enum = ["[k for k in keys m]", "def r_ = []; for k in keys m do append(r_, k) end; r_", "[...m]", "[e[0] for e in entries m]",
+                  "def r_ = []; for e in entries m do append(r_, e[0]) end; r_", "sorted([...m])"]
+        s_enum = ["[x for x in s]", "def r_ = []; for x in s do append(r_, x) end; r_", "list(s)", "[...s]", "[x for x in <<y for y in s>>]"]
+        for k in news:
+            for e1, e2 in itertools.product(range(len(m_enum)), repeat=2):
+                for change, after in ((f"put(m, {lit(k)}, 0)", sorted(keys0 + [k])), (f"m[{lit(k)}] = 0", sorted(keys0 + [k])),
+                                      (f"m[{lit(keys0[0])}] += 1; m[{lit(k)}] = 7", sorted(keys0 + [k])), (f"m[{lit(k)}] = 0; remove(m, {lit(keys0[1])})", sorted([keys0[0], k])),
+                                      (f"remove(m, {lit(keys0[0])})", [keys0[1]])):
+                    src = (f"def m = <<<{lit(keys0[1])} => 2, {lit(keys0[0])} => 1>>>; def b_ = do {m_enum[e1]} end; {change}; def a_ = do {m_enum[e2]} end; [b_, a_]")
+                    want = "[" + lst(sorted(keys0)) + ", " + lst(after) + "]"
+                    out = common.run_program(it, src)
+                    ctx.count("enumerate_change_enumerate")
+                    if out[:2] != ('val', want):
+                        ctx.violation("oracle", f"`{src}` gives {out[:2]}, the ascending enumerations are {want}", {"op": "enum-program", "src": src, "items": []})
+            for e1, e2 in itertools.product(range(len(s_enum)), repeat=2):
+                for change, after in ((f"append(s, {lit(k)})", sorted(keys0 + [k])), (f"s += {lit(k)}", sorted(keys0 + [k])),
+                                      (f"append(s, {lit(k)}); remove(s, {lit(keys0[1])})", sorted([keys0[0], k])), (f"remove(s, {lit(keys0[0])})", [keys0[1]])):
+                    src = (f"def s = <<{lit(keys0[1])}, {lit(keys0[0])}>>; def b_ = do {s_enum[e1]} end; {change}; def a_ = do {s_enum[e2]} end; [b_, a_]")
+                    want = "[" + lst(sorted(keys0)) + ", " + lst(after) + "]"
+                    out = common.run_program(it, src)
+                    ctx.count("enumerate_change_enumerate")
+                    if out[:2] != ('val', want):
+                        ctx.violation("oracle", f"`{src}` gives {out[:2]}, the ascending enumerations are {want}", {"op": "enum-program", "src": src, "items": []})
     # ---- sorted: permutation, ordered, stable — exhaustive small lists with duplicate keys
     keys = [('i', 1), ('d', 1.0), ('i', 2), ('d', 0.5)]
     maxlen = 7 if ctx.thorough else 5
